@@ -8,7 +8,7 @@ Import ListNotations.
 From CXV Require Import Gen.Blocks Parse.BlocksSM Parse.BlocksSpec Parse.BlocksThms.
 From CXV Require Gen.PinsC03.
 From CXV Require Import Gen.ParserTables Parse.Balanced Parse.BalancedThms Parse.Specs Parse.ClassEnum Parse.CtorDtor.
-From CXV Require Import Gen.TokTy Parse.Declarator Parse.DeclSpec Parse.DeclThms Parse.BaseClause Parse.EnumList Parse.Specs Parse.Init Parse.Members Parse.MethodTail Parse.DeclStmt Parse.MemberStmt.
+From CXV Require Import Gen.TokTy Parse.Declarator Parse.DeclSpec Parse.DeclThms Parse.BaseClause Parse.EnumList Parse.Specs Parse.Init Parse.Members Parse.MethodTail Parse.DeclStmt Parse.MemberStmt Parse.OpName.
 Open Scope N_scope.
 
 (* the access delivered with a member equals the backward-scan specification
@@ -171,7 +171,20 @@ Theorem special_member_statement_decodes_partial : forall cls dcls pre nm ps va 
      (DOk (apply_kws pre mods0, [MMethod nm None ps va ctor (negb ctor) (apply_end e (quals_of quals))], rest)).
 Proof. exact special_member_roundtrip. Qed.
 
-(* the functions the hand-written models above mirror (_parse_class_decl, _parse_class_decl_base_clause, _maybe_parse_class_enum_decl, _parse_decl, _parse_method_end, _discard_ctor_initializer, _parse_field, _parse_bitfield, _parse_declarations and _parse_function) are, token for
+(* Overloaded operator names (_parse_pqname_name_operator): `operator ( )` is the call operator and
+   nothing more belongs to its name, whatever follows (a parameter list, template arguments of an
+   explicit specialization, the ';' of a using-declaration); every other operator's name is exactly
+   the tokens up to the parameter list or the ';' *)
+Theorem call_operator_is_two_tokens : forall lp rp R,
+  is LP lp = true -> is RP rp = true -> op_name (lp :: rp :: R) = DOk ([lp; rp], R).
+Proof. exact call_operator_name. Qed.
+
+Theorem operator_name_is_its_tokens : forall t parts s R,
+  is LP t = false -> forallb (fun x => negb (op_stop x)) parts = true -> op_stop s = true ->
+  op_name (t :: parts ++ s :: R) = DOk (t :: parts, s :: R).
+Proof. exact operator_name_exact. Qed.
+
+(* the functions the hand-written models above mirror (_parse_class_decl, _parse_class_decl_base_clause, _maybe_parse_class_enum_decl, _parse_decl, _parse_method_end, _discard_ctor_initializer, _parse_field, _parse_bitfield, _parse_declarations, _parse_function, _parse_pqname_name_operator and _parse_operator_conversion) are, token for
    token of their syntax trees, the ones the models were written against: the
    translator recomputes the digests from the live code and produces Gen/PinsC03.v
    only when they match *)
@@ -218,6 +231,8 @@ Print Assumptions friend_constructor_compares_with_befriended_class.
 Print Assumptions modelled_functions_are_the_pinned_ones.
 Print Assumptions member_statement_decodes_partial.
 Print Assumptions special_member_statement_decodes_partial.
+Print Assumptions call_operator_is_two_tokens.
+Print Assumptions operator_name_is_its_tokens.
 
 (* `static Foo * f1 : 3 = 1, & m2 ( Bar a ) const noexcept = 0 ;` and `explicit Cls ( ) : a ( 1 ) { }` in class Cls (ids 5 / 6) *)
 Example c03_member_stmt_run :
